@@ -231,7 +231,30 @@ def run_case(case, env, res):
         eff_alpha = "none"  # no alpha channel: every setting shows the colours
     exp = expected_pixels(at_res, eff_alpha, thr, hexbg, termbg)
 
-    image = BlockImage(src, width=W, height=H)
+    paged_path = None
+    if case.get("paged") and tier == "identity":
+        # the image under test is one page of a multi-page file whose pages differ in mode
+        # (an opaque page before a transparent one, and the other way round)
+        import os
+        import tempfile
+
+        before = [Image.new(m, src.size, {"RGB": (90, 10, 200), "RGBA": (1, 2, 3, 0), "L": 77, "LA": (9, 130)}[m]) for m in case["paged"]]
+        fd, paged_path = tempfile.mkstemp(suffix=".tiff", dir="/var/tmp", prefix="vf-c02-")
+        os.close(fd)
+        (before + [src])[0].save(paged_path, format="TIFF", save_all=True, append_images=(before + [src])[1:] + [Image.new("RGB", src.size, (5, 6, 7))])
+        image = BlockImage.from_file(paged_path, width=W, height=H)
+        image.seek(len(before))
+        with Image.open(paged_path) as chk:
+            chk.seek(len(before))
+            same = chk.mode == src.mode and list(chk.getdata()) == list(src.getdata())
+        if not same:
+            res.count("skipped: the page did not survive the TIFF round trip")
+            image.close()
+            os.unlink(paged_path)
+            return
+        res.count("pages of multi-page files with mixed modes")
+    else:
+        image = BlockImage(src, width=W, height=H)
     alpha_arg = {"none": None, "thr": thr, "termbg": "#", "hex": "#%02x%02x%02x" % (hexbg or (0, 0, 0))}[alpha_mode]
     how = case["how"]
     if how == "split":
@@ -291,6 +314,11 @@ def run_case(case, env, res):
             % (tier, mode, alpha_mode, thr, termbg, on_kitty, W, H, how, len(bad), bad[:3]),
             case,
         )
+    if paged_path:
+        image.close()
+        import os
+
+        os.unlink(paged_path)
 
 
 def gen(rnd):
@@ -314,6 +342,8 @@ def gen(rnd):
         case["hexbg"] = [rnd.randrange(256), rnd.randrange(256), rnd.randrange(256)]
     if tier == "identity":
         case["mode"] = rnd.choice(["RGBA", "RGBA", "RGB"])
+        if rnd.random() < 0.15:
+            case["paged"] = [rnd.choice(["RGB", "RGBA", "L", "LA"]) for _ in range(rnd.randint(1, 3))]
     else:
         case["mode"] = rnd.choice(MODES)
         case["src"] = [rnd.randint(1, 60), rnd.randint(1, 60)]
